@@ -178,7 +178,7 @@ func Generate(seed uint64, profile string) *Project {
 		for m := 0; m < nM; m++ {
 			c.Methods = append(c.Methods, g.method(&c, m, Pick(r, files)))
 		}
-		if profile == "router" && r.Chance(1, 2) && total+len(c.Methods) < maxRoutes {
+		if r.Chance(1, 2) && total+len(c.Methods) < maxRoutes {
 			// a literal sibling of a parameter route (same verb): /items/{id} + /items/featured
 			for mi := range c.Methods {
 				m := c.Methods[mi]
@@ -777,7 +777,7 @@ func (g *genState) method(c *Controller, idx int, file string) Method {
 // controlled share of overlapping routes (they only produce warnings).
 func (g *genState) fixOverlaps() {
 	keep := g.profile == "order" && g.r.Chance(1, 4)
-	keepSpecific := g.profile == "router" // literal route shadowing a parameter route: the common /items/featured + /items/{id} shape
+	keepSpecific := true // literal route shadowing a parameter route: the common /items/featured + /items/{id} shape (a warning, i.e. diagnostics)
 	for iter := 0; iter < 50; iter++ {
 		rts := g.p.Routes()
 		changed := false
